@@ -316,6 +316,8 @@ def types(a, env=None, func=False):
                         break
                     if isinstance(target_.value, (ast.Name, ast.Subscript)):
                         target_ = target_.value
+                    else:
+                        break
 
                 if invalid_index:
                     audits(a, "types", TypeErrorRoot("indices must be integers"))
